@@ -1,5 +1,31 @@
 package checks
 
-import "github.com/coreruleset/crs-toolchain/v2/zz_verif/core"
+import (
+	"os"
+	"runtime"
+	"time"
+
+	"github.com/coreruleset/crs-toolchain/v2/zz_verif/core"
+	"github.com/coreruleset/crs-toolchain/v2/zz_verif/inproc"
+)
 
 var Registry = map[string]func(*core.Run){}
+
+func init() {
+	// state-leak sentinel: the same probe programs in the worker process and in fresh processes
+	core.WorkerProbe = func() string {
+		// the repository never closes included files: let the finalizers run before probing
+		for i := 0; i < 3; i++ {
+			runtime.GC()
+			time.Sleep(5 * time.Millisecond)
+		}
+		d := core.Scratch("probe")
+		defer os.RemoveAll(d)
+		return inproc.Sentinel(d, false)
+	}
+	core.ProbeReference = func() string {
+		d := core.Scratch("probe")
+		defer os.RemoveAll(d)
+		return inproc.Sentinel(d, true)
+	}
+}
